@@ -41,8 +41,8 @@ class HProp(Prop):
     components = H_COMPONENTS
     mode = 'h:none'
     mode_args = ''
-    quick_runs = 4
-    thorough_runs = 64
+    quick_runs = 8
+    thorough_runs = 160
     quick_wall = 35
     thorough_wall = 600
     cases_quick = 1000
@@ -382,7 +382,7 @@ class HexCaseProp(HProp):
 class C21(HexCaseProp):
     id = 'C21'
     mode = 'h:c21'
-    cases_quick = 2600
+    cases_quick = 4000
     cases_thorough = 12000
     rule = ('case = one request byte string (generated heads: methods/targets/versions/delimiters/line ends/garbage prefixes/header blocks incl. '
             'obs-fold and bare LF, lengths around request_header_max_size, byte-level mutations, truncations) run through a real '
@@ -512,7 +512,7 @@ def prefix_compatible(s, magic):
 class C23(HexCaseProp):
     id = 'C23'
     mode = 'h:c23'
-    cases_quick = 2600
+    cases_quick = 4000
     cases_thorough = 12000
     rule = ('case = one origin byte string (status lines with generated/mutated versions, status-code texts of 0-4 characters, delimiters, '
             'reason phrases, line ends, header blocks, lengths around reply_header_max_size, non-HTTP payloads, truncations) run through a '
@@ -594,22 +594,26 @@ class More(Exception):
 def ref_dechunk(data, relaxed, trailing_bws=False):
     """Reference chunked decoder (RFC 9112 section 7.1 with BWS around ';' and '=' in chunk extensions).
     -> ('ok', body, consumed, strict) | ('more', body_so_far) | ('bad', body_so_far) | ('unsure', why)
-    strict=False marks input that is outside the RFC grammar although Squid documents tolerating it (SP/HTAB right after chunk-size)."""
+    strict=False marks input outside the RFC grammar that Squid documents tolerating: SP/HTAB right after chunk-size (bug 4492) and,
+    with relaxed_header_parser, VT/FF/CR as "bad whitespace" around ';' and '=' (Http::One::Parser::WhitespaceCharacters())."""
     n = len(data)
     pos = 0
     body = []
-    strict = True
-    def bws(p):
-        while p < n and data[p] in (9, 32):
-            p += 1
-        if p < n and relaxed and (data[p] in (11, 12) or (data[p] == 13 and p + 1 < n and data[p + 1] != 10)):
-            raise Unsure('VT/FF/bare CR where the relaxed parser accepts whitespace')
-        if p < n and relaxed and data[p] == 13 and p + 1 == n:
-            raise More()
-        return p
+    strict = [True]
+    WSP = (9, 32)
+    RWS = (9, 32, 11, 12, 13) if relaxed else WSP
+    def bws(p, chars=None):
+        chars = chars or RWS
+        q = p
+        while q < n and data[q] in chars:
+            q += 1
+        return q
     def need(p):
         if p >= n:
             raise More()
+    def lenient(a, b):
+        if any(c not in WSP for c in data[a:b]):
+            strict[0] = False
     def crlf(p):
         if data[p:p + 2] == b'\r\n':
             return p + 2
@@ -630,7 +634,7 @@ def ref_dechunk(data, relaxed, trailing_bws=False):
             if size > 0x7fffffffffffffff:
                 raise Bad()
             need(p)
-            q = bws(p)
+            q = bws(p, WSP)          # only SP/HTAB here (ParseStrictBws)
             need(q)
             after_size_ws = q > p
             pos = q
@@ -639,9 +643,12 @@ def ref_dechunk(data, relaxed, trailing_bws=False):
                 q = bws(pos)
                 need(q)
                 if data[q] != 0x3b:
-                    break
-                q = bws(q + 1)
+                    break           # whatever was skipped is not consumed
+                lenient(pos, q)
+                a = q + 1
+                q = bws(a)
                 need(q)
+                lenient(a, q)
                 e = q
                 while e < n and data[e] in TCHAR:
                     e += 1
@@ -654,8 +661,11 @@ def ref_dechunk(data, relaxed, trailing_bws=False):
                 need(q)
                 if data[q] != 0x3d:
                     continue
-                q = bws(q + 1)
+                lenient(e, q)
+                a = q + 1
+                q = bws(a)
                 need(q)
+                lenient(a, q)
                 if data[q] == 0x22:
                     q += 1
                     while True:
@@ -683,9 +693,9 @@ def ref_dechunk(data, relaxed, trailing_bws=False):
                     need(e)
                     pos = e
             if after_size_ws and nexts == 0:
-                strict = False
+                strict[0] = False
             if trailing_bws and nexts:
-                pos = bws(pos)      # not in the grammar; only used to recognise one observed pattern (see C24.harness_violations)
+                pos = bws(pos, WSP)   # not in the grammar; only used to recognise one observed pattern (see C24.harness_violations)
                 need(pos)
             pos = crlf(pos)
             if size == 0:
@@ -696,12 +706,14 @@ def ref_dechunk(data, relaxed, trailing_bws=False):
                     if e < 0:
                         if n - pos > 60000:
                             raise Unsure('huge trailer block')
+                        if any(c in (13, 10) for c in data[q:q + 1]) and data[q:] not in (b'\r',):
+                            raise Unsure('trailer line outside field-line CRLF form')
                         raise More()
                     line = data[q:e + 1]
                     if line == b'\r\n':
                         if e + 1 - pos > 60000:
                             raise Unsure('huge trailer block')
-                        return ('ok', b''.join(body), e + 1, strict)
+                        return ('ok', b''.join(body), e + 1, strict[0])
                     if not line.endswith(b'\r\n') or line[:1] in (b' ', b'\t', b'\r', b'\n'):
                         raise Unsure('trailer line outside field-line CRLF form')
                     i = line.find(b':')
@@ -723,7 +735,7 @@ def ref_dechunk(data, relaxed, trailing_bws=False):
 
 EXT_NAMES = [b'x', b'name', b'a1', b'ieof', b'use-original-body', b"!#$%&'*+-.^_`|~"]
 EXT_TOKENS = [b'1', b'v', b'token', b'0x5', b'A-b_c']
-EXT_QUOTED = [b'', b'q', b'a b', b'semi;colon', b'cr\\\rlf', b'esc\\"aped', b'back\\\\slash', b'\xe9', b'tab\there', b'=;,', b'\\x']
+EXT_QUOTED = [b'', b'q', b'a b', b'semi;colon', b'q\\ pair', b'q\\\tpair', b'esc\\"aped', b'back\\\\slash', b'\xe9', b'tab\there', b'=;,', b'\\x', b'\\\xff']
 
 def gen_ext(rng):
     out = b''
@@ -829,8 +841,8 @@ def gen_chunked_case(rng):
 class C24(HexCaseProp):
     id = 'C24'
     mode = 'h:c24'
-    cases_quick = 2400
-    cases_thorough = 12000
+    cases_quick = 3000
+    cases_thorough = 10000
     two_split_max = 48
     mode_args = '4 48 300'
     rule = ('case = one byte string: a valid chunked encoding of a random body 0..64KB (random chunk sizes, hex case, leading zeros, extensions '
@@ -960,7 +972,7 @@ class ClpModel:
 class C51(HProp):
     id = 'C51'
     mode = 'h:c51'
-    cases_quick = 2500
+    cases_quick = 3000
     cases_thorough = 10000
     rule = ('case = one operation sequence (20-120 ops: add with TTL incl. 0/negative/huge, add with the default TTL, get, del, setMemLimit incl. 0 '
             'and shrinking below usage, clock advances of sub-second to hours through the simulated clock + getCurrentTime()) over 3-12 keys of '
@@ -1083,3 +1095,246 @@ class C51(HProp):
         if int(end[0]) != int(end[1]):
             V.append(Violation('C51:accounting-differs', '%s: memoryUsed()=%s but the stored entries account for %s' % (where, end[0], end[1])))
         return V, nontrivial
+
+# ================================================================================================= C59
+
+def fh(s):
+    return float.fromhex(s)
+
+@register
+class C59(HProp):
+    id = 'C59'
+    mode = 'h:c59'
+    cases_quick = 2500
+    cases_thorough = 10000
+    rule = ('case = one sequence of eventAdd (2-12 events; delays 0, 1us ... 60s on a 250 ms grid plus random ones; weights 0/1), eventDelete of '
+            'still-pending events, clock advances without a loop iteration (events become due but cannot fire yet; equal due times are '
+            'constructed from different schedule times), rare backward wall-clock steps, and "run" steps that return into the real '
+            'EventLoop::runOnce() with a chosen clock advance; the harness is an idle hook of the running squid, events go through the real '
+            'EventScheduler and AsyncCallQueue next to squid\'s own periodic events; every fired event is logged with current_dtime. Oracle over '
+            'the log: fire time >= due time, each fire is the minimum (due, insertion) of what is pending (when=0 events carry the documented '
+            'zero timestamp), cancelled events never fire, everything else fires exactly once by the end. non-trivial = at least two events '
+            'fired; distinct = distinct op sequences')
+    case_record_kinds = ('RES', 'VIOL', 'ADD', 'DEL', 'FIRE', 'TIME', 'BACK', 'RUN', 'LEFT')
+    assumptions = ['an event with when=0 is due immediately and sorts before all timed events (src/event.cc documents the zero timestamp)',
+                   'eventDelete() is only called for events the harness knows to be pending (deleting a missing event is a debug_trap)',
+                   'single-threaded loop; backward clock steps are wall-clock steps seen through getCurrentTime()']
+    def gen_cases(self, rng, n, plan):
+        out = []
+        grid = [0, 0, 1, 1000, 250000, 250000, 500000, 500000, 750000, 1000000, 1000000, 1500000, 2000000, 5000000, 60000000]
+        for i in range(n):
+            nev = rng.randint(2, 12)
+            ids = list(range(1, nev + 1))
+            rng.shuffle(ids)
+            ops = []
+            added = []
+            gridcase = rng.random() < 0.7
+            while ids or rng.random() < 0.3:
+                r = rng.random()
+                if ids and r < 0.5:
+                    ev = ids.pop()
+                    d = rng.choice(grid) if (gridcase or rng.random() < 0.5) else rng.randint(0, 3000000)
+                    ops.append('A,%d,%d,%d' % (ev, d, 1 if rng.random() < 0.2 else 0))
+                    added.append(ev)
+                elif r < 0.62 and added:
+                    ops.append('X,%d' % rng.choice(added))
+                elif r < 0.76:
+                    ops.append('T,%d' % (rng.choice([250000, 250000, 500000, 1000000, 1, 0]) if gridcase else rng.randint(0, 1500000)))
+                elif r < 0.78:
+                    ops.append('J,%d' % rng.choice([1, 250000, 1000000, 3000000]))
+                else:
+                    ops.append('R,%d' % (rng.choice([0, 0, 1000, 250000, 500000, 1000000, 5000000]) if gridcase else rng.randint(0, 2500000)))
+                if len(ops) > 60:
+                    break
+            out.append({'id': 'e%d' % i, 'ops': ops})
+        return out
+    def case_line(self, c):
+        return '%s %s' % (c['id'], ' '.join(c['ops']))
+    def describe_case(self, c):
+        return self.case_line(c)[:700]
+    def shrink_case(self, case):
+        ops = case['ops']
+        n = len(ops)
+        size = n // 2
+        while size >= 1:
+            for a in range(0, n, size):
+                c = dict(case)
+                c['ops'] = ops[:a] + ops[a + size:]
+                if c['ops']:
+                    yield c
+            size //= 2
+    def case_complete(self, recs):
+        return any(r[0] == 'RES' for r in recs)
+    def judge_case(self, case, recs, plan, meta):
+        V = self.harness_violations(case, recs)
+        where = 'case %s: %s' % (case['id'], self.case_line(case)[:500])
+        pending = {}
+        cancelled = set()
+        fired = []
+        seq = 0
+        log = []
+        for (kind, f, sq, t) in recs:
+            if kind == 'ADD':
+                ev, now, when = int(f[0]), fh(f[1]), fh(f[2])
+                key = now + when if when > 0 else 0.0      # EventScheduler::schedule(): zero timestamp for when=0 (due at once, whatever the wall clock does)
+                pending[ev] = (key, seq, key)
+                seq += 1
+                log.append('add %d now=%.6f when=%.6f' % (ev, now, when))
+            elif kind == 'DEL':
+                ev = int(f[0])
+                pending.pop(ev, None)
+                cancelled.add(ev)
+                log.append('del %d' % ev)
+            elif kind == 'FIRE':
+                ev, now = int(f[0]), fh(f[1])
+                log.append('fire %d at %.6f' % (ev, now))
+                ctx = '%s: log tail: %s' % (where, '; '.join(log[-14:]))
+                if ev in cancelled and ev not in pending:
+                    V.append(Violation('C59:cancelled-event-fired', ctx))
+                    break
+                if ev not in pending:
+                    V.append(Violation('C59:fired-twice-or-unknown', ctx))
+                    break
+                key, s, due = pending[ev]
+                if now < due:
+                    V.append(Violation('C59:fired-before-due', '%s: event %d due at %.6f fired at %.6f' % (ctx, ev, due, now)))
+                    break
+                first = min(pending.items(), key=lambda kv: (kv[1][0], kv[1][1]))
+                if first[0] != ev:
+                    V.append(Violation('C59:fired-out-of-order', '%s: event %d (due %.6f, scheduled #%d) fired while event %d (due %.6f, scheduled #%d) was pending' % (
+                        ctx, ev, key, s, first[0], first[1][0], first[1][1])))
+                    break
+                del pending[ev]
+                fired.append(ev)
+            elif kind in ('TIME', 'BACK'):
+                log.append('%s %.6f' % (kind.lower(), fh(f[0])))
+            elif kind == 'RUN':
+                log.append('run +%sus' % f[0])
+            elif kind == 'RES':
+                if pending and not V:
+                    V.append(Violation('C59:event-lost', '%s: events %s never fired although the loop ran past their due times; log tail: %s' % (where, sorted(pending), '; '.join(log[-14:]))))
+        return V, len(fired) >= 2
+
+# ================================================================================================= C44
+
+def c44_eval_ref(ref, truth, groups):
+    neg = ref.startswith('!')
+    name = ref[1:] if neg else ref
+    if name.startswith('v'):
+        val = bool(truth >> int(name[1:]) & 1)
+    else:
+        g = groups[name]
+        if g['type'] == 'any':
+            val = any(c44_eval_ref(r, truth, groups) for line in g['lines'] for r in line)
+        else:
+            val = any(all(c44_eval_ref(r, truth, groups) for r in line) for line in g['lines'])
+    return val != neg
+
+def c44_decide(case, truth):
+    """reference first-match evaluator -> 1 allow, 0 deny, 2 neither"""
+    groups = {g['name']: g for g in case['groups']}
+    rules = case['rules']
+    if not rules:
+        return 2
+    for r in rules:
+        if all(c44_eval_ref(x, truth, groups) for x in r['refs']):
+            return 1 if r['act'] == 'a' else 0
+    return 0 if rules[-1]['act'] == 'a' else 1
+
+@register
+class C44(HProp):
+    id = 'C44'
+    mode = 'h:c44'
+    cases_quick = 2500
+    cases_thorough = 10000
+    rule = ('case = one access list (0-6 allow/deny rules, 1-4 [!]ACL references each, over 8 leaf ACLs of the registered type verif_sim and 0-3 '
+            'any-of/all-of group ACLs that may nest and negate) fed line by line to the real parsers (Acl::Node::ParseNamedAcl, aclParseAccessLine; the '
+            'leaves come from squid.conf at start-up) and 1-8 concurrent ACLFilledChecklist::NonBlockingCheck()s with their own truth values and '
+            'per-leaf behaviour: synchronous, goAsync() answered later, goAsync() answered inside the starter, answer cached or forgotten after use; '
+            'outstanding lookups complete in seeded order and batch sizes, half of the batches from the harness, half as events through the real '
+            'EventLoop/AsyncCallQueue. Oracle: callback answer == reference first-match evaluator (implicit opposite of the last rule, DUNNO for no '
+            'list), exactly one callback per checklist. non-trivial = at least one lookup went asynchronous; distinct = distinct cases')
+    assumptions = ['rule lines always name at least one ACL (the parser skips a rule line without ACLs with an error message, so the statement\'s '
+                   '"0 ACLs" corner has no well-defined reading)', 'no banned actions, no authentication ACLs (ACCESS_AUTH_REQUIRED) in the lists']
+    case_record_kinds = ('RES', 'VIOL', 'END44')
+    def conf_lines(self, plan):
+        return ['acl v%d verif_sim %d' % (i, i) for i in range(8)]
+    def case_complete(self, recs):
+        return any(r[0] == 'END44' for r in recs)
+    def gen_cases(self, rng, n, plan):
+        out = []
+        for i in range(n):
+            groups = []
+            names = ['v%d' % k for k in range(8)]
+            def ref():
+                return ('!' if rng.random() < 0.3 else '') + rng.choice(names)
+            for g in range(pick(rng, [(4, 0), (3, 1), (2, 2), (1, 3)])):
+                typ = rng.choice(['any', 'all'])
+                lines = [[ref() for _ in range(rng.randint(1, 3))] for _ in range(1 if typ == 'any' or rng.random() < 0.6 else 2)]
+                groups.append({'name': 'g%d' % g, 'type': typ, 'lines': lines})
+                names = names + ['g%d' % g] * 3
+            rules = []
+            for _ in range(pick(rng, [(0.2, 0), (2, 1), (3, 2), (3, 3), (2, 4), (1, 5), (1, 6)])):
+                rules.append({'act': rng.choice('ad'), 'refs': [ref() for _ in range(pick(rng, [(3, 1), (3, 2), (2, 3), (1, 4)]))]})
+            chk = []
+            dens = rng.choice([0.0, 0.2, 0.5, 0.9, 1.0])
+            for _ in range(rng.randint(1, 8)):
+                a = sum(1 << b for b in range(8) if rng.random() < dens)
+                im = sum(1 << b for b in range(8) if (a >> b & 1) and rng.random() < 0.15)
+                chk.append({'t': rng.getrandbits(8), 's': a, 'i': im, 'f': 1 if rng.random() < 0.3 else 0})
+            out.append({'id': 'a%d' % i, 'groups': groups, 'rules': rules, 'chk': chk, 'seed': rng.getrandbits(32)})
+        return out
+    def case_line(self, c):
+        g = '|'.join('%s=%s:%s' % (x['name'], x['type'], '/'.join(','.join(l) for l in x['lines'])) for x in c['groups']) or '-'
+        r = ';'.join('%s:%s' % (x['act'], ','.join(x['refs'])) for x in c['rules']) or '-'
+        k = ';'.join('%x.%x.%x.%d' % (x['t'], x['s'], x['i'], x['f']) for x in c['chk'])
+        return '%s %s %s %s %d' % (c['id'], g, r, k, c['seed'])
+    def describe_case(self, c):
+        return self.case_line(c)[:700]
+    def shrink_case(self, case):
+        for k in range(len(case['chk'])):
+            if len(case['chk']) > 1:
+                c = copy.deepcopy(case); c['chk'] = [case['chk'][k]]; yield c
+        for i in range(len(case['rules'])):
+            if len(case['rules']) > 1:
+                c = copy.deepcopy(case); del c['rules'][i]; yield c
+        for i, r in enumerate(case['rules']):
+            for j in range(len(r['refs'])):
+                if len(r['refs']) > 1:
+                    c = copy.deepcopy(case); del c['rules'][i]['refs'][j]; yield c
+        for i, r in enumerate(case['rules']):
+            for j, x in enumerate(r['refs']):
+                if 'g' in x:
+                    c = copy.deepcopy(case); c['rules'][i]['refs'][j] = 'v0'; yield c
+        used = set(x.lstrip('!') for r in case['rules'] for x in r['refs']) | set(x.lstrip('!') for g in case['groups'] for l in g['lines'] for x in l)
+        for gi, g in enumerate(case['groups']):
+            if g['name'] not in used:
+                c = copy.deepcopy(case); del c['groups'][gi]; yield c
+        for k, x in enumerate(case['chk']):
+            if x['s']:
+                c = copy.deepcopy(case); c['chk'][k]['s'] = 0; c['chk'][k]['i'] = 0; yield c
+            if x['f']:
+                c = copy.deepcopy(case); c['chk'][k]['f'] = 0; yield c
+    def judge_case(self, case, recs, plan, meta):
+        V = self.harness_violations(case, recs)
+        where = 'case %s: %s' % (case['id'], self.case_line(case)[:600])
+        names = {1: 'ALLOWED', 0: 'DENIED', 2: 'DUNNO', 3: 'AUTH_REQUIRED', -1: 'none'}
+        res = {}
+        asyncs = 0
+        for (kind, f, sq, t) in recs:
+            if kind == 'RES':
+                res[int(f[0])] = (int(f[1]), int(f[2]), int(f[3]), int(f[4]))
+                asyncs += int(f[4])
+        for k, x in enumerate(case['chk']):
+            if k not in res:
+                V.append(Violation('C44:no-result', '%s: checklist %d has no result' % (where, k)))
+                continue
+            code, implicit, callbacks, na = res[k]
+            if callbacks != 1:
+                V.append(Violation('C44:callback-count', '%s: checklist %d got %d callbacks' % (where, k, callbacks)))
+                continue
+            exp = c44_decide(case, x['t'])
+            if code != exp:
+                V.append(Violation('C44:wrong-answer', '%s: checklist %d (truth=%02x async=%02x immediate=%02x forget=%d, %d lookups) answered %s, reference first-match evaluator says %s' % (
+                    where, k, x['t'], x['s'], x['i'], x['f'], na, names.get(code, code), names[exp])))
+        return V, asyncs > 0
